@@ -392,6 +392,11 @@ func TestExhaustiveIgnore(t *testing.T) {
 	var mu sync.Mutex
 	var failure *Case
 	var failureMsg string
+	type classFailure struct {
+		c *Case
+		v string
+	}
+	byClass := map[string]classFailure{} // smallest failing case per classifier label
 	work := make(chan int, 64)
 	var wg sync.WaitGroup
 	for w := 0; w < runtime.GOMAXPROCS(0); w++ {
@@ -431,9 +436,14 @@ func TestExhaustiveIgnore(t *testing.T) {
 						if statusOf(got) != want || cont {
 							c := &Case{Patterns: patterns, VCS: vcs, Path: pr.path, Dir: pr.dir}
 							v, _ := judge(c)
+							label := strings.Join(KnownClasses(c.Patterns, c.Path, nil), "+")
+							size := func(x *Case) int { return len(strings.Join(x.Patterns, "")+x.Path)*4 + len(x.Patterns) }
 							mu.Lock()
-							if failure == nil || len(strings.Join(c.Patterns, "")+c.Path) < len(strings.Join(failure.Patterns, "")+failure.Path) {
+							if failure == nil || size(c) < size(failure) {
 								failure, failureMsg = c, v
+							}
+							if prev, ok := byClass[label]; !ok || size(c) < size(prev.c) {
+								byClass[label] = classFailure{c, v}
 							}
 							mu.Unlock()
 						}
@@ -456,6 +466,16 @@ func TestExhaustiveIgnore(t *testing.T) {
 	close(work)
 	wg.Wait()
 	if failure != nil {
+		var labels []string
+		for l := range byClass {
+			labels = append(labels, l)
+		}
+		sort.Strings(labels)
+		for _, l := range labels {
+			if byClass[l].c != failure {
+				failureMsg += fmt.Sprintf("\n also failing (classifier %q): %s", l, byClass[l].v)
+			}
+		}
 		ev.FailTB(t, rec, failure, "%s", failureMsg)
 	}
 }
@@ -608,7 +628,7 @@ func TestRandomScan(t *testing.T) {
 	rec := ev.New(t, prop, "random-scans",
 		"rapid: trees of depth <=4, fan-out <=4 over {a,b,c,ab,.git,.hg,a.b} with directories, files, portable and absolute links, put on disk and scanned by core.Scan with a list of 0..5 patterns (mostly derived from paths of the tree) and the VCS option; snapshot shape, digest cache and ignore cache compared with the reference; "+ruleScan)
 	known := knownClasses(rec)
-	ev.Check(t, rec, 1000, 12000, func(rt *rapid.T) {
+	ev.Check(t, rec, 1000, 30000, func(rt *rapid.T) {
 		c := &Case{Tree: &Node{Kind: "dir"}}
 		var paths []string
 		c.Tree.Children = genTree(rt, 0, "", &paths)
